@@ -105,24 +105,7 @@ pub fn check(t: &Trace<'_>, out: &mut CaseOut) -> bool {
                 out.count("excluded_tx_too_small_for_connect", 1);
                 return false;
             }
-            // size of this session's CONNECT, from any earlier connection that got it onto the wire
-            // (the encoder reserves 5 bytes for the fixed header in front of the body)
-            let connect_need = w
-                .conns
-                .iter()
-                .filter_map(|c| c.out.packets.first().filter(|p| matches!(p.pkt, CPacket::Connect { .. })).map(|p| {
-                    let len = p.end - p.start;
-                    let hdr = 1 + crate::refcodec::varint_len((len - 2) as u32).min(len - 1);
-                    // the identifier may have been replaced by a (longer) broker-assigned one since
-                    let seen_id = match &p.pkt {
-                        CPacket::Connect { client_id, .. } => client_id.len(),
-                        _ => 0,
-                    };
-                    let now_id = t.conns[..conn].iter().rev().find(|c| c.established && c.assigned.is_some()).and_then(|c| c.assigned.as_ref()).map(|s| s.len()).unwrap_or(t.log.cfg.client_id.len());
-                    len - hdr + 5 + now_id.saturating_sub(seen_id)
-                }))
-                .max();
-            let rx_too_small = connect_need.is_none_or(|l| t.log.cfg.rx < l);
+            let rx_too_small = rx_smaller_than_connect(t, conn);
             let sig = match (e, full) {
                 (ErrRepr::BufferTooSmall, true) if rx_too_small => "C12/connect/BufferTooSmall/arena-occupied-and-rx-smaller-than-CONNECT".to_string(),
                 (ErrRepr::BufferTooSmall, true) => "C12/connect/BufferTooSmall/arena-occupied".to_string(),
@@ -192,4 +175,29 @@ pub fn check(t: &Trace<'_>, out: &mut CaseOut) -> bool {
         }
     }
     nontrivial
+}
+
+/// Is the receive buffer too small to encode this session's CONNECT in it? (The CONNECT is
+/// encoded in the free part of the transmit arena or, failing that, in the idle receive buffer.)
+pub fn rx_smaller_than_connect(t: &Trace<'_>, conn: usize) -> bool {
+    let w = t.w;
+    // size of this session's CONNECT, from any earlier connection that got it onto the wire
+    // (the encoder reserves 5 bytes for the fixed header in front of the body)
+    let connect_need = w
+        .conns
+        .iter()
+        .filter_map(|c| c.out.packets.first().filter(|p| matches!(p.pkt, CPacket::Connect { .. })).map(|p| {
+            let len = p.end - p.start;
+            let hdr = 1 + crate::refcodec::varint_len((len - 2) as u32).min(len - 1);
+            // the identifier may have been replaced by a (longer) broker-assigned one since
+            let seen_id = match &p.pkt {
+        CPacket::Connect { client_id, .. } => client_id.len(),
+        _ => 0,
+            };
+            let now_id = t.conns[..conn].iter().rev().find(|c| c.established && c.assigned.is_some()).and_then(|c| c.assigned.as_ref()).map(|s| s.len()).unwrap_or(t.log.cfg.client_id.len());
+            len - hdr + 5 + now_id.saturating_sub(seen_id)
+        }))
+        .max();
+    let rx_too_small = connect_need.is_none_or(|l| t.log.cfg.rx < l);
+    rx_too_small
 }
